@@ -93,7 +93,9 @@ nz = 40 if tier == "quick" else 400
 gids = [0, 6795] + [rng.randrange(6796) for _ in range(nz)]
 for gi in gids:
     wx, wy, wz, ex, ey, ez = (Fraction(float(mdc[c][gi])) for c in ("west_x", "west_y", "west_z", "east_x", "east_y", "east_z"))
-    for z in [float(mdc["west_z"][gi]), float(mdc["east_z"][gi]), 0.0, 200.0, -200.0, rng.uniform(-150, 150), rng.uniform(-1e4, 1e4)]:
+    # "for every z": also far outside the chamber, where an ill-conditioned way of writing the line shows (axial wires stay EXACTLY put)
+    for z in [float(mdc["west_z"][gi]), float(mdc["east_z"][gi]), 0.0, 200.0, -200.0, rng.uniform(-150, 150), rng.uniform(-1e4, 1e4),
+              1e6, -1e9, 1e12, -1e15, rng.choice([-1, 1]) * 10.0 ** rng.uniform(5, 17)]:
         zq = Fraction(z)
         for ax, w, e in (("x", wx, ex), ("y", wy, ey)):
             exact = w + (e - w) / (ez - wz) * (zq - wz)
@@ -142,7 +144,19 @@ def snapshot(dt=np.int64):
         {"zx": np.array(p3.mdc_gid_z_to_x(gm, 12.5))}
     tm = p3.get_mdc_wire_position(); te = p3.get_emc_crystal_position()
     s |= {f"tab.mdc.{c}": np.array(tm[c]) for c in tm} | {f"tab.emc.{c}": np.array(te[c]) for c in te}
+    # ... and the tables as handed out in the other libraries (every retrieval is a fresh private copy in every library)
+    for lib_ in SNAP_LIBS:
+        tm2 = p3.get_mdc_wire_position(lib_); te2 = p3.get_emc_crystal_position(lib_)
+        for nm_, t2 in (("mdc", tm2), ("emc", te2)):
+            for c in (t2.fields if lib_ == "ak" else list(t2.columns)):
+                s[f"tab.{nm_}.{lib_}.{c}"] = np.array(ak.to_numpy(t2[c]) if lib_ == "ak" else t2[c].to_numpy())
     return s
+SNAP_LIBS = ["ak"]
+try:
+    import pandas as _pd  # noqa
+    SNAP_LIBS.append("pd")
+except ImportError:
+    pass
 ref = snapshot()
 libs = ["np", "ak"]
 try:
@@ -169,6 +183,15 @@ for which in ("mdc", "emc"):
         for col in cols:
             arr = t[col] if lib == "np" else (ak.to_numpy(t[col]) if lib == "ak" else t[col].to_numpy())
             ops.append([which, lib, col, mutate(arr, "iadd")])
+        # ... and columns REPLACED on the handed-out object (t["c"] = ...), the ordinary way of editing an Awkward array / DataFrame / dict
+        for col in cols[:3]:
+            try:
+                if lib == "np": t[col] = np.zeros_like(t[col])
+                elif lib == "ak": t[col] = t[col] * 0 + 5
+                else: t[col] = 5
+                ops.append([which, lib, col, "setfield"])
+            except Exception:
+                ops.append([which, lib, col, "setfield-refused"])
         now = snapshot(FRESH_DTYPES[(li + (3 if which == "emc" else 0)) % len(FRESH_DTYPES)]); n_hist += 1
         for k in ref:
             if not np.array_equal(bits(ref[k]), bits(now[k])):
